@@ -20,7 +20,7 @@ ID = "C11"
 LEVEL = "model_checking"
 FUNCTIONS = ["PowerManagingActor._calculate_target_power", "_calculate_shifted_bounds", "_send_updated_target_power", "_send_reports", "_bounds_tracker body",
              "result-handling branch of _run (PartialFailure -> resend)", "Matryoshka.calculate_target_power/get_status/get_target_power/drop_old_proposals (both groups)"]
-SHIMS = ["actor constructed normally; _system_bounds/_bound_tracker_tasks pre-seeded so that no data pipeline is needed; request and report senders are recorders",
+SHIMS = ["'run:' instances: the real actor is started and fed through real frequenz.channels; only _add_system_bounds_tracker is overridden to read bounds from a harness channel instead of building a battery pool", "other instances: actor constructed normally; _system_bounds/_bound_tracker_tasks pre-seeded so that no data pipeline is needed; request and report senders are recorders",
          "events are applied through the real handlers in the order the real _run / _bounds_tracker call them", "math.isclose dispatch on proxies"]
 ASSUMPTIONS = ["exact reals", "system bounds lower <= 0 <= upper at every update; no exclusion zone in quick (present in thorough)",
                "every power and bound of every proposal is symbolic, each field present or None by a symbolic flag",
@@ -129,6 +129,100 @@ def make(seq, excl=False, shape=None, reach=False):
     return fn
 
 
+def make_run(seq, shape="plu", reach=False):
+    """The same events, but delivered through real channels to the real PowerManagingActor._run select loop and the real
+    _bounds_tracker task (only the construction of the battery pool in _add_system_bounds_tracker is replaced by a harness
+    bounds channel).  Extra events: 'stale_partial' = PartialFailure for the FIRST request that was sent (arriving late),
+    'success', 'sleep62' (every proposal made so far expires through the real 1 s timer)."""
+    import asyncio
+    from frequenz.sdk.microgrid._power_managing._base_classes import ReportRequest, _Report
+
+    def fn(ex):
+        async def scenario():
+            prop_ch = Broadcast[Proposal](name="proposals")
+            sub_ch = Broadcast[ReportRequest](name="subs")
+            req_ch = Broadcast[pd.Request](name="requests")
+            res_ch = Broadcast[pd.Result](name="results")
+            bounds_ch = Broadcast[SystemBounds](name="bounds")
+            registry = ChannelRegistry(name="reg")
+
+            class A(PowerManagingActor):
+                def _add_system_bounds_tracker(self, component_ids):
+                    self._system_bounds[component_ids] = SystemBounds(timestamp=TS, inclusion_bounds=None, exclusion_bounds=None)
+                    self._bound_tracker_tasks[component_ids] = asyncio.create_task(self._bounds_tracker(component_ids, bounds_ch.new_receiver(limit=100)))
+            a = A(prop_ch.new_receiver(limit=100), sub_ch.new_receiver(limit=100), req_ch.new_sender(), res_ch.new_receiver(limit=100), registry,
+                  component_category=ComponentCategory.BATTERY)
+            req_rx = req_ch.new_receiver(limit=100)
+            a.start()
+            subs = sub_ch.new_sender()
+            rr_reg = ReportRequest(source_id="r", component_ids=IDS, priority=1, set_operating_point=False)
+            rr_op = ReportRequest(source_id="o", component_ids=IDS, priority=2, set_operating_point=True)
+            reg_rx = registry.get_or_create(_Report, rr_reg.get_channel_name()).new_receiver(limit=100)
+            op_rx = registry.get_or_create(_Report, rr_op.get_channel_name()).new_receiver(limit=100)
+            await subs.send(rr_reg)
+            await subs.send(rr_op)
+            await asyncio.sleep(0.01)
+            bsend, psend, rsend = bounds_ch.new_sender(), prop_ch.new_sender(), res_ch.new_sender()
+
+            def new_bounds(k):
+                il, iu = ex.real(f"il{k}"), ex.real(f"iu{k}")
+                ex.assume(z3.And(E(il) <= 0, 0 <= E(iu)))
+                return sysb(il, iu), (il, iu)
+            b0, cur = new_bounds("0")
+            await bsend.send(b0)
+            await asyncio.sleep(0.01)
+
+            last_reg = last_op = None
+            all_requests = []
+            for k, ev in enumerate(seq):
+                if ev in ("reg", "op"):
+                    now = asyncio.get_running_loop().time()
+                    await psend.send(prop(ex, f"{ev[0]}{k}", 2 if ev == "op" else 1, ev == "op", now, shape))
+                elif ev == "bounds":
+                    b, cur = new_bounds(str(k + 1))
+                    await bsend.send(b)
+                elif ev in ("stale_partial", "partial") and all_requests:
+                    r = all_requests[0] if ev == "stale_partial" else all_requests[-1]
+                    await rsend.send(pd.PartialFailure(request=r, succeeded_power=Power.zero(), succeeded_components=set(), failed_power=r.power,
+                                                       failed_components=set(IDS), excess_power=Power.zero()))
+                elif ev == "success" and all_requests:
+                    r = all_requests[-1]
+                    await rsend.send(pd.Success(request=r, succeeded_power=r.power, succeeded_components=set(IDS), excess_power=Power.zero()))
+                elif ev == "sleep62":
+                    await asyncio.sleep(62.0)
+                    continue
+                await asyncio.sleep(0.01)
+                new_reqs = await _take(req_rx)
+                for m in await _take(reg_rx):
+                    last_reg = m
+                for m in await _take(op_rx):
+                    last_op = m
+                all_requests.extend(new_reqs)
+                for r in new_reqs:
+                    treg = last_reg.target_power if last_reg is not None else None
+                    top = last_op.target_power if last_op is not None else None
+                    tot = (E(treg.as_watts()) if treg is not None else 0) + (E(top.as_watts()) if top is not None else 0)
+                    rp = E(r.power.as_watts())
+                    if reach:
+                        if k == len(seq) - 1:
+                            ex.check(False, "reach")
+                        continue
+                    ex.check(rp == tot, f"event {k} ({ev}): request != regular target + operating-point target as reported after the event")
+                    ex.check(z3.And(E(cur[0]) <= rp, rp <= E(cur[1])), f"event {k} ({ev}): request outside the latest system inclusion bounds")
+            await a.stop()
+
+        async def _take(rx):
+            import asyncio as _a
+            out = []
+            while True:
+                try:
+                    out.append(await _a.wait_for(rx.receive(), 0.001))
+                except _a.TimeoutError:
+                    return out
+        fx.run_loop(scenario())
+    return fn
+
+
 def instances(tier):
     import itertools
 
@@ -152,6 +246,11 @@ def instances(tier):
         extra.append(("op", "reg", "expire", "reg"))
     for s in extra:
         out.append(I("-".join(s), "make", (s, False, "plu"), f"events {s}; proposals fully specified", budget_s=300, validate_every=200))
+    runs = [("reg", "op", "bounds"), ("op", "reg", "bounds"), ("reg", "op", "reg", "stale_partial"), ("reg", "op", "bounds", "stale_partial"),
+            ("reg", "op", "success", "bounds"), ("reg", "op", "sleep62", "bounds"), ("reg", "bounds", "op", "partial")]
+    for s in runs:
+        out.append(I("run:" + "-".join(s), "make_run", (s,), f"real _run loop and _bounds_tracker over channels, events {s}; proposals fully specified",
+                     budget_s=300, validate_every=500))
     if tier != "quick":
         for s in (("reg", "op", "bounds"), ("op", "reg", "bounds"), ("reg", "bounds", "op"), ("reg", "op", "bounds", "bounds"), ("reg", "op", "reg", "bounds")):
             out.append(I("excl:" + "-".join(s), "make", (s, True, "plu"), f"events {s} with an exclusion zone (budgeted)", budget_s=600, validate_every=2000, exhaustive=False))
